@@ -39,6 +39,7 @@ package codec
 // the same value reached twice is the same symbolic term.
 
 import (
+	"go/constant"
 	"go/token"
 	"go/types"
 	"sync"
@@ -221,6 +222,13 @@ func allocField(al *ssa.Alloc, idx int, read ssa.Instruction, fr *Frame, d int) 
 			return nil, nil, false
 		}
 	}
+	if len(whole)+len(field) == 0 {
+		// never written: the zero value (integers only)
+		if ft := structOf(al.Type()).Field(idx).Type(); isIntT(ft) {
+			return ssa.NewConst(constant.MakeInt64(0), ft), nil, true
+		}
+		return nil, nil, false
+	}
 	if len(whole)+len(field) != 1 {
 		return nil, nil, false
 	}
@@ -384,6 +392,9 @@ type cellKey struct {
 	field int // -1: the allocation itself is the (scalar) cell
 }
 
+// wholeStruct as cellKey.field: a store of a whole struct value (c := T{…}).
+const wholeStruct = -2
+
 type cellOp struct {
 	in     ssa.Instruction
 	store  *ssa.Store // a store of the owning function
@@ -507,11 +518,13 @@ func (z *Sym) cellGroupOf(root *ssa.Alloc) *cellGroup {
 			case *ssa.Store:
 				if x.Addr != ssa.Value(al) {
 					fail("the address of the cell is stored")
-				} else if !scalar {
-					fail("the cursor struct is overwritten as a whole")
 				} else if !seenOp[x] {
 					seenOp[x] = true
-					g.ops = append(g.ops, cellOp{in: x, store: x, key: cellKey{al, -1}})
+					k := cellKey{al, -1}
+					if !scalar {
+						k.field = wholeStruct
+					}
+					g.ops = append(g.ops, cellOp{in: x, store: x, key: k})
 				}
 			case *ssa.FieldAddr:
 				for _, rr := range *x.Referrers() {
@@ -636,7 +649,21 @@ func (z *Sym) replay(g *cellGroup, n int, fr *Frame) bool {
 		for k, v := range cur {
 			next[k] = v
 		}
-		if op.store != nil {
+		if op.store != nil && op.key.field == wholeStruct {
+			// c = T{…}: every integer field takes the value the literal gives it
+			st := structOf(op.key.root.Type())
+			for i := 0; st != nil && i < st.NumFields(); i++ {
+				if !isIntT(st.Field(i).Type()) {
+					continue
+				}
+				fv, ff, ok := structField(op.store.Val, scopeFrame(op.store.Val, fr), i, 0)
+				if !ok {
+					g.bad = "the cursor struct is assigned a value whose fields cannot be read off"
+					break
+				}
+				next[cellKey{op.key.root, i}] = z.in(ff, func() lin.Form { return z.of(fv, 0) })
+			}
+		} else if op.store != nil {
 			next[op.key] = z.in(fr, func() lin.Form { return z.of(op.store.Val, 0) })
 		} else {
 			ok := z.replayCall(g, op, fr, next)
